@@ -6,6 +6,7 @@ mod c19;
 mod c20;
 mod wrappers;
 mod many;
+mod galplain;
 
 fn main() {
     let a: Vec<String> = std::env::args().collect();
